@@ -167,6 +167,9 @@ class FunctionLogger:
             The returned function value must be a finite real-valued scalar
             (returned value {})"""
             raise ValueError(error_message.format(str(fval_orig)))
+        # Work with a float from here on (unsigned integer values would wrap
+        # around in the improvement arithmetic of the optimizer)
+        fval_orig = float(np.real(fval_orig))
 
         # Check returned function SD
         if self.he_noise_flag and (
